@@ -169,6 +169,11 @@ func (c *Ctx) Finish(writeEvidence bool) int {
 		}
 	}
 	exit := 0
+	if os.Getenv("SACHECK_VERBOSE") != "" {
+		for _, o := range c.obs {
+			fmt.Printf("  . %s [%s] at %s: %s\n", o.Status, o.Key(), o.Where, oneLine(o.Detail))
+		}
+	}
 	replayDir := filepath.Join(c.VerifDir, "evidence", "replay")
 	for _, o := range knownHit {
 		k := knownIdx[o.Key()]
